@@ -115,9 +115,15 @@ PROPS = {
                       "the last yank stands right before the cursor) - safe_mainLoop with PopPre (PopOK, and last action reset unless the "
                       "command is one the loop does not reset for), the kill-ring frame C17_ring_frame (every command but Kill / Replace / "
                       "ViYankTo / Yank / YankPop, next_cmd and the dispatch loop leave the ring as it was), pop_preCmds, popI_execute "
-                      "(ClearScreen / Noop / Suspend keep line and ring) - and rsafe_yankPop makes YankPop safe from it; what is left of "
-                      "it (C17_Open.pop = PopLocal) are three facts about ONE command each: a Kill that leaves last action = Yank leaves "
-                      "line and cursor alone, and after Yank / after YankPop the pasted text stands before the cursor. The theorem is a "
+                      "(ClearScreen / Noop / Suspend keep line and ring) - and rsafe_yankPop makes YankPop safe from it. The three "
+                      "one-command facts this rests on are proved (round 11, Lemmas/EditorPopLocal.lean): after Yank and after YankPop exactly "
+                      "the bytes the ring recorded stand right before the cursor (popLocal_yank, popLocal_pop: yank_eval, yankPop_shape), and "
+                      "a Kill run from PopPre leaves PopOK (popLocal_kill: no kill sets the last action to Yank - lbKill_go_lastAction; a kill "
+                      "that answers false leaves line and cursor alone - faithful_kill) up to ONE remaining fact about LineBuffer::kill and "
+                      "the ring: a non-character kill that answers true sets the last action to Kill. Its ring-level half is proved "
+                      "(lbKill_go_bracket: a notification stream bracketed by start/stop_killing that contains a deletion the ring takes "
+                      "up leaves last action = Kill); what remains is C17_Open.killReports = KillReports, about LineBuffer::kill alone: "
+                      "the answer true comes with such a stream. The theorem is a "
                       "proved reduction of 'the only panic is D43' to these obligations, not the unconditional statement. "
                       "Discharged by the result-tracking pass C17_next_cmd_returns (every command next_cmd returns, in both modes: a "
                       "ReplaceChar count is <= 65535, and in vi mode it is never YankPop - C17_vi_never_yankPop for the default "
@@ -483,8 +489,8 @@ PROPS["C02"] = {
             "the pty harness cuts the output where the Event::Any handler runs (marker written from inside the handler)",
             "validators' messages, list completion, incremental-search prompts, the external printer, tabs and control characters in the "
             "text are outside this check (not in the property's quantifier, or other properties)"],
-        "unproved": ["C02_logBd_statement: every cursor the editor model logs is on a character boundary, under the helper contracts of C17 - "
-                     "needs the line-buffer invariant carried through the bodies of commands and sub-loops (with L's open J for Undo / YankPop)"],
+        "unproved": ["C02_popUndoWF_statement: whenever yank_pop / Changeset::undo return, the cursor of the line is on a character boundary "
+                     "(statements about Rl/LineBuffer.lean and Rl/Undo.lean alone; both operations slice and panic off a boundary)"],
         "level_text": "Lean theorems, for every lawful segmenter, width table and terminal width >= 2, over prompts/lines/hints made of "
                       "line breaks and printable clusters of width 0/1/2: the grapheme loop of calculate_position simulates the cursor "
                       "of a VT100-style terminal (deferred wrap, early wrap of wide characters, zero-width joins); positions computed "
@@ -518,10 +524,12 @@ PROPS["C02"] = {
                       "(C02_CtlZero), and the two halves of LogFine of the produced log, stated apart (logFine_iff): LogPlain (every logged text "
                       "consists of PlainG clusters: an input restriction, kept as a hypothesis on the log - as a predicate on the inputs it needs an "
                       "alphabet restriction on segmenter / width table / case mappings and a character-level closure pass over the whole editor) and "
-                      "LogBd (every logged cursor is on a character boundary). LogBd is not derived yet (C02_logBd_statement): package L's read "
-                      "invariant gives WF s.line where commands and sub-loops return, a log entry records the line where the renderer is called, in "
-                      "the middle of them; proved groundwork (Rl/Lemmas/RenderLogBd.lean): WF s.line and LogBd s.render is a step invariant of every "
-                      "rendering primitive and of next_cmd in both modes (bdp_nextCmd). Every command of execute (pres_execute), listing and circular completion and - since "
+                      "LogBd (every logged cursor is on a character boundary). LogBd is now DERIVED (C02_logBd, round 5): BdI = WF s.line, WF s.saved and LogBd s.render is a step invariant carried through every "
+                      "rendering primitive, both key maps, every command of execute, circular and listing completion, incremental search, the dispatch "
+                      "loop, the main loop and the initial text (Rl/Lemmas/RenderLogBd*.lean; C03 totality theorems and L's lmsafe_* per operation, C09 "
+                      "for search positions; replace slices at both ends, so no completer contract is needed). The two final theorems take, instead "
+                      "of LogBd: indentSize <= 255, YankPopWF and UndoWF (yank_pop / the undo log leave the cursor on a boundary whenever they return - "
+                      "C02_popUndoWF_statement, not proved). Every command of execute (pres_execute), listing and circular completion and - since "
                       "the repair of D42 - incremental search (est_searchLoop) are lifted. "
                       "The differential check covers the real Editor::readline "
                       "on a pty at widths 2..40 and 80, its output interpreted by the Lean terminal emulator at every Event::Any "
